@@ -363,6 +363,7 @@ func soleConcrete(t types.Type) *types.Named {
 	soleCache[t] = found
 	return found
 }
+
 var envBusy bool
 
 // Deref strips one pointer level.
